@@ -222,6 +222,16 @@ def constraint_violations(g, key, base, t):
             x[c["a"]] = x.get(c["a"], val(c["a"]))
             x.pop(c["b"], None)
             out.append(("constraint:%s_without_%s" % (c["a"], c["b"]), reorder(x)))
+            siblings = [c2["a"] for c2 in t["constraints"] if c2["k"] == "requires" and c2["b"] == c["b"] and c2["a"] != c["a"]]
+            if siblings:        # ... and alone: without the other members that require the same thing (a check that walks them in order may stop at the first absent one)
+                y = copy.deepcopy(x)
+                for n2 in siblings:
+                    y.pop(n2, None)
+                out.append(("constraint:%s_alone_without_%s" % (c["a"], c["b"]), reorder(y)))
+                if descs[c["b"]]["kind"] == "boolean":
+                    y2 = copy.deepcopy(y)
+                    y2[c["b"]] = False
+                    out.append(("constraint:%s_alone_with_%s_false" % (c["a"], c["b"]), reorder(y2)))
             if descs[c["b"]]["kind"] == "boolean":          # ... and with the required member present but false where the text says "if and only if true"
                 y = copy.deepcopy(x)
                 y[c["b"]] = False
@@ -284,6 +294,10 @@ def corruptions(g, key, base, rng, quick):
             x.pop(n)
             out.append(("%s:removed" % n, x))
         kinds = list(WRONG) if not quick else rng.sample(list(WRONG), 3)
+        # the kinds a lax conversion lets through are always tried: true / false where a number is expected (a boolean is an integer to Python), numbers and numeric text
+        # where a boolean or a string is expected
+        near = {"integer": ["bool", "float", "str"], "float": ["bool", "str"], "boolean": ["int", "str"], "string": ["int", "bool"], "timestamp": ["int"], "enum": ["bool"]}.get(d["kind"], [])
+        kinds = kinds + [k for k in near if k not in kinds]
         for wk in kinds:
             x = copy.deepcopy(base)
             x[n] = copy.deepcopy(WRONG[wk])
@@ -464,7 +478,8 @@ def emit_lines(chk, quick, junk=True):
                 lines.append(emit_one(v, key, "valid_base", base, "parse"))
                 cs = corruptions(g, key, base, rng, quick)
                 if quick:
-                    always = [c for c in cs if ":ref_object" in c[0] or ":ref_text_braces" in c[0] or c[0].startswith(("constraint:", "satisfied_by_falsy:")) or "hash_value_digits_as_number" in c[0]]
+                    always = [c for c in cs if ":ref_object" in c[0] or ":ref_text_braces" in c[0] or c[0].startswith(("constraint:", "satisfied_by_falsy:")) or "hash_value_digits_as_number" in c[0]
+                              or c[0].endswith((":wrongkind:bool", ":wrongkind:int")) and any(p["name"] == c[0].split(":")[0] and p["kind"] in ("integer", "float", "boolean") for p in g.types[key]["properties"])]
                     cs = rng.sample(cs, min(len(cs), 28)) + always
                 for how, d in cs:
                     entry = rng.choice(["parse", "parse", "constructor", "parse_dict"]) if quick else None
